@@ -61,8 +61,16 @@ CHECKS["C10"] = dict(
          "C10_tasks); an exception escapes at exactly the first program whose test raises (C10_raise); naive = cut-off whenever no evaluation raises, "
          "and precisely related otherwise (C10_naive_cutoff*, C10_zero_examples); the evaluator cache left by earlier tasks is irrelevant "
          "(C10_cache_irrelevant, via C11).  Each run re-checks them and compares the extracted model with NaivePBESolver/CutoffPBESolver driven by a "
-         "replay enumerator over several tasks sharing one evaluator."),
-   note=TB + "The timeout branch is modelled but neither exercised nor covered by a theorem.  Tasks are sequential on one solver and the first step is next().  A stub replay enumerator is used; program_probability and the time statistic are not compared.  Output equality is modelled on typed outputs.  RestartPBESolver is not modelled (its test module is a collection error in the baseline).",
+         "replay enumerator over several tasks sharing one evaluator.  RestartPBESolver (model Sem/SolverRestart.v, any restart criterion, scripted "
+         "enumerations of the successive clones): the events are the plain-solver protocol over the effective stream (C10_restart_yields / "
+         "C10_restart_equals_plain); the effective stream is the concatenation of the uniquely determined consumed prefixes of the successive "
+         "enumerations, each starting at that enumeration's first program (C10_restart_effective, _unique, _pieces_are_prefixes); on acceptance "
+         "'programs' is the rank in the effective stream and the restarts are exactly the firings of the criterion (C10_restart_stats, _accept_state); "
+         "every drawn program is tested exactly once (C10_restart_complete, _drawn_tested); with a criterion that never fires the restart solver is its "
+         "sub-solver (C10_restart_never_fires*); C10_restart_exhaustion_refuted exhibits the RuntimeError of the code before fix 73be1da.  Each run "
+         "compares the extracted model with the real RestartPBESolver driven by scripted enumerators carrying a real PCFG and by the real heap search "
+         "enumerator (recorded streams replayed by the model)."),
+   note=TB + "The timeout branch is modelled but neither exercised nor covered by a theorem.  Tasks are sequential on one solver and the first step is next().  A stub replay enumerator is used; program_probability and the time statistic are not compared.  Output equality is modelled on typed outputs.  For RestartPBESolver the grammar re-weighting of _restart_ is outside the model (the pcfg passed to clone() is only checked to be normalised over the same rules); the timeout branch is modelled, not exercised; one solver object per case without reset_stats().",
    design="5/C10")
 CHECKS["C14"] = dict(
    technique="Coq proof of the instantiate_polymorphic_types model against a declarative instance specification + extracted-model/implementation correspondence",
